@@ -14,6 +14,7 @@ import (
 	"sort"
 	"strings"
 	"sync"
+	"sync/atomic"
 	"time"
 
 	frugal "github.com/Workiva/frugal/lib/go"
@@ -32,7 +33,7 @@ type harness struct {
 	cuts      map[string]map[int]bool // error kind -> offsets covered
 	faultIdx  map[string]map[int]bool // op -> indices covered
 	histLens  map[int]int
-	dumpKept  int
+	newVio    int64
 }
 
 func (h *harness) violation(sig, what string, witness map[string]interface{}) {
@@ -41,12 +42,17 @@ func (h *harness) violation(sig, what string, witness map[string]interface{}) {
 	n := h.vioCounts[sig]
 	h.mu.Unlock()
 	if n > 1 {
-		// same signature: counted, the first witness is the replay
-		h.run.Violation(sig, what, nil)
-		return
+		witness = nil // same signature: counted, the first witness is the replay
 	}
-	h.run.Violation(sig, what, witness)
+	if h.run.Violation(sig, what, witness) {
+		atomic.AddInt64(&h.newVio, 1)
+	}
 }
+
+// breakerLimit: a workload stops launching cases once that many of its cases
+// have ended in a new (not known) violation - the run is red anyway, and every
+// poisoned transport costs goroutines.  A count, not a time budget.
+const breakerLimit = 1500
 
 var waitPairs = [][2]time.Duration{{1, 1}, {1, 2}, {1, 4}, {2, 2}, {2, 4}, {4, 4}}
 
@@ -282,8 +288,15 @@ func (h *harness) runAll(name string, cases []*caseSpec, workers int) {
 			}
 		}()
 	}
+	start := atomic.LoadInt64(&h.newVio)
+	launched := 0
 	for _, c := range cases {
+		if atomic.LoadInt64(&h.newVio)-start >= breakerLimit {
+			h.run.Set("workload_cut_short_"+name, fmt.Sprintf("%d of %d cases launched: %d of them ended in a violation", launched, len(cases), breakerLimit))
+			break
+		}
 		ch <- c
+		launched++
 	}
 	close(ch)
 	wg.Wait()
@@ -353,6 +366,25 @@ func runC15(tier string, args []string) int {
 		maxLen, nRand, schedReps = 3, 300, 3
 	}
 
+	// (d)
+	h.runAll("schedules", genSchedules(run.Rand("sched"), schedReps), workers)
+
+	// (d') one at a time: the schedule that needs the library's yield-point hook
+	{
+		frugal.VerifSetHook(frameHook)
+		var ser []*caseSpec
+		rng := run.Rand("sched-serial")
+		for _, sc := range serialSchedules {
+			for i := 0; i < schedReps; i++ {
+				for _, p := range []policy{mkPolicy(false, 0, 0, rng), mkPolicy(true, 2, 1, rng)} {
+					ser = append(ser, &caseSpec{Kind: "sched", Sched: sc, Pol: p})
+				}
+			}
+		}
+		h.runAll("schedules_serial", ser, 1)
+		frugal.VerifSetHook(nil)
+	}
+
 	// (b) first: the dry runs also prove that the fault-free conversation holds
 	counts := map[bool]map[string]int{}
 	for _, chunked := range []bool{false, true} {
@@ -390,25 +422,6 @@ func runC15(tier string, args []string) int {
 		cuts = cuts[:len(cuts)/4]
 	}
 	h.runAll("cuts", cuts, workers)
-
-	// (d)
-	h.runAll("schedules", genSchedules(run.Rand("sched"), schedReps), workers)
-
-	// (d') one at a time: the schedule that needs the library's yield-point hook
-	{
-		frugal.VerifSetHook(frameHook)
-		var ser []*caseSpec
-		rng := run.Rand("sched-serial")
-		for _, sc := range serialSchedules {
-			for i := 0; i < schedReps; i++ {
-				for _, p := range []policy{mkPolicy(false, 0, 0, rng), mkPolicy(true, 2, 1, rng)} {
-					ser = append(ser, &caseSpec{Kind: "sched", Sched: sc, Pol: p})
-				}
-			}
-		}
-		h.runAll("schedules_serial", ser, 1)
-		frugal.VerifSetHook(nil)
-	}
 
 	// (c)
 	hist := genHistories(maxLen, run.Rand("hist"))
